@@ -7,7 +7,7 @@ Lemma source_exec_table_lemma : forall t, source_section t = model_section t.
 Proof. destruct t; reflexivity. Qed.
 
 Lemma source_time_facts_lemma :
-  stamp_is_plan_time = true /\ plan_time_after_scan = true /\ expiry_nonstrict = true /\
+  marks_stamped_at_write = true /\ plan_time_after_scan = false /\ expiry_nonstrict = true /\
   ts_MarkDelete = Stamp /\ ts_Repack = Stamp /\ ts_Unreferenced = Stamp /\ ts_KeepMarked = KeepOld.
 Proof. repeat split; reflexivity. Qed.
 
@@ -26,11 +26,14 @@ Proof.
   - apply in_map_iff in Hm. destruct Hm as (p & <- & Hp). left. reflexivity.
 Qed.
 
-(* the plan time is the clock at the pack listing, i.e. after the index load and the snapshot scan *)
-Lemma plan_time_is_listing_clock_lemma : forall kd s asg rw s', step kd s (PPlan asg rw) = Some s' ->
-  exists q', prn s' = Some q' /\ ptime q' = clock s.
+(* the plan time (against which expiry is tested) is the clock when the prune started, i.e. before the index
+   load and the snapshot scan — or, in the unrepaired code, the clock at the pack listing after them *)
+Lemma plan_time_source_lemma : forall kd s asg rw s', step kd s (PPlan asg rw) = Some s' ->
+  exists q q', prn s = Some q /\ prn s' = Some q' /\
+               ptime q' = (if plan_time_after_scan then clock s else plstart q).
 Proof.
-  intros kd s asg rw s' H. step_cases H. subst s'. unfold set_prn. simpl. eexists. split; [reflexivity|]. reflexivity.
+  intros kd s asg rw s' H. step_cases H. subst s'. unfold set_prn. simpl. eexists. eexists.
+  split; [reflexivity|]. split; [reflexivity|]. reflexivity.
 Qed.
 
 (* computed instance of the hypotheses of next_prune_recovers *)
